@@ -650,6 +650,66 @@ func (c *Ctx) ringInvariant() {
 	}
 	run.Count("ring_state_methods", methods)
 	run.Floor("ring_state_methods", 2)
+	// the observers are functions of the state the invariant is about: IsEmpty() = empty,
+	// IsFull() = !empty && begin == end, on all four combinations. A cached answer kept in a field
+	// of its own is a second copy of the state that every method would have to keep up to date.
+	for _, ob := range []struct {
+		name string
+		want func(empty, same bool) bool
+	}{
+		{"IsEmpty", func(empty, same bool) bool { return empty }},
+		{"IsFull", func(empty, same bool) bool { return !empty && same }},
+	} {
+		fi := c.P.Method("helper", "Ring", ob.name)
+		if fi == nil || fi.Decl.Body == nil {
+			run.Break("anchor missing: helper.(*Ring)." + ob.name)
+			continue
+		}
+		site := "helper.(*Ring)." + ob.name
+		m := dtab.FromFuncDecl(info, fi.Decl)
+		recv := ""
+		if len(fi.Decl.Recv.List) == 1 && len(fi.Decl.Recv.List[0].Names) == 1 {
+			recv = fi.Decl.Recv.List[0].Names[0].Name
+		}
+		bN, eN, mN := recv+"."+ringF.begin, recv+"."+ringF.end, recv+"."+ringF.empty
+		if len(m.Unsupported) > 0 || len(m.State) > 0 {
+			c.violate("ring-observers", site, "shape", fi.Decl.Pos(), ob.name+" is not a side-effect free expression of the ring's state (undecided, fails closed)")
+			continue
+		}
+		foreign := ""
+		for _, rd := range m.Reads {
+			if rd != bN && rd != eN && rd != mN {
+				foreign = rd
+			}
+		}
+		if foreign != "" {
+			run.Oblige(false)
+			c.violate("ring-observers", site, "reads "+foreign, fi.Decl.Pos(), ob.name+" answers from "+foreign+", not from empty/begin/end: a cached copy of the state goes stale in every method that does not refresh it (Get after a full ring still reports full, and the next Put overwrites a live element)")
+			continue
+		}
+		for _, empty := range []bool{true, false} {
+			for _, same := range []bool{true, false} {
+				env := map[string]sym.Expr{mN: sym.V("#false"), bN: sym.N(0), eN: sym.N(1)}
+				if empty {
+					env[mN] = sym.V("#true")
+				}
+				if same {
+					env[eN] = sym.N(0)
+				}
+				ps, ok := m.Select(env, numOracle)
+				good := false
+				if ok && len(ps) == 1 && len(ps[0].Ret) == 1 {
+					if v, decided := dtab.EvalBool(ps[0].Ret[0], env, numOracle); decided {
+						good = v == ob.want(empty, same)
+					}
+				}
+				run.Oblige(good)
+				if !good {
+					c.violate("ring-observers", site, fmt.Sprintf("empty=%v begin==end=%v", empty, same), fi.Decl.Pos(), fmt.Sprintf("%s does not answer %v when empty=%v and begin==end is %v", ob.name, ob.want(empty, same), empty, same))
+				}
+			}
+		}
+	}
 	// NewRing: begin == end, empty
 	if nr := c.fn("helper", "", "NewRing"); nr != nil {
 		ok := false
